@@ -1675,6 +1675,12 @@ def check_hygiene(rep, g):
                     par = m['path']
             rep.ob('R-HYGIENE', tg == [par] or (not u['targets']), g, 'the only glob import of the generated module is `use super::*`', {'targets': tg})
             continue
+        if not u.get('in_mod', True):
+            # an import inside a generated function body / const block shadows the name there only: it matters when user
+            # tokens are spliced into that body
+            owner = [fn for fn in g.fns if fn['path'] == u.get('owner')]
+            if not owner or not any(has_user_tokens(F, fn) for fn in owner):
+                continue
         for t in u['targets']:
             nm = u.get('name') or t['path'].split('::')[-1]
             ok = nm in HYGIENE_IMPORTS or nm.startswith('__') or nm == '_'
